@@ -110,6 +110,29 @@ theorem catBody_cases (cfg : Cfg) (bounded : Bool) (dest dmax src dl m slen : Na
     exact ⟨fun h => hp.hit (by omega) (by omega), fun h1 h2 => hp.done (by omega) (by omega),
       fun h1 h2 => hp.full (by omega) (by omega)⟩
 
+/-- the unbounded concatenations on a source without a terminator in the first `min g (dmax - dl)` cells, `src` not
+inside the dest string (that placement is ESOVRLP whatever the source holds: `findEnd_hits`) -/
+theorem catBody_noterm (cfg : Cfg) (dest dmax src dl g : Nat) (st : St)
+    (hall : ∀ a, st.mapped a = true ∧ st.rd a = true)
+    (hpos : 0 < dmax) (hrw : RW st dest dmax)
+    (hdl : dl < dmax) (hdnz : ∀ j, j < dl → st.data (dest + j) ≠ 0) (hdnul : st.data (dest + dl) = 0)
+    (hg : (dest < src ∧ src = dest + dl + g) ∨ (src ≤ dest ∧ dest = src + g))
+    (hnz : ∀ j, j < g → j < dmax - dl → st.data (src+j) ≠ 0) :
+    ∃ code st', exec (catBody cfg false dest dmax src 0) st = .ok (code, st') ∧
+      code = (if g < dmax - dl then ESOVRLP else ESNOSPC) ∧ ClearedPost cfg dest dmax code st st' := by
+  unfold catBody
+  rcases hg with ⟨hlt, he⟩ | ⟨hlt, he⟩
+  · rw [if_pos hlt]
+    have hfe := findEnd_str cfg true src dest dmax dmax dest dl st hrw hdl hdnz hdnul (by intro _ j hj; omega)
+    simp only [exec_bind, hfe]
+    exact copyLoop_noterm cfg true false src dest dmax hpos (dmax - dl) (dest + dl) src g 0 st hall hrw
+      ⟨by omega, by omega⟩ (Or.inl ⟨rfl, he, rfl⟩) hnz (fun h => absurd h (by decide))
+  · rw [if_neg (by omega)]
+    have hfe := findEnd_str cfg false dest dest dmax dmax dest dl st hrw hdl hdnz hdnul (by intro h; cases h)
+    simp only [exec_bind, hfe]
+    exact copyLoop_noterm cfg false false dest dest dmax hpos (dmax - dl) (dest + dl) src g 0 st hall hrw
+      ⟨by omega, by omega⟩ (Or.inr ⟨rfl, he, by omega⟩) hnz (fun h => absurd h (by decide))
+
 /-- **dest holds no NUL within `dmax`**: ESOVRLP when the scan runs into `src`, else ESUNTERM; dest cleared -/
 theorem catBody_unterm (cfg : Cfg) (bounded : Bool) (dest dmax src slen : Nat) (st : St)
     (hpos : 0 < dmax) (hrw : RW st dest dmax)
